@@ -45,6 +45,8 @@ ASSUMPTIONS = [
     "an AEAD forgery by random mutation (probability 2^-128) is treated as impossible",
     "keys that normalize_key maps to the same 32 bytes (K and sha256(K)) are not used as 'foreign' keys",
     "age == ttl and negative age (token from the future) are unspecified by the statement: either outcome accepted",
+    "a continuation that omits the call token altogether may be served by a worker with a call-state cache "
+    "(docs/WIRE_PROTOCOL.md documents this tolerance); it must be refused with capacity 0",
     "identities whose canonical (domain or '', principal or '') forms coincide are never used as a 'distinct' pair",
 ]
 SHARDS = {"quick": 1, "thorough": 16}
@@ -257,6 +259,11 @@ def judge(world: World, cursor: bytes | None, cbase: tk.Tok | None, call: bytes 
     order = {"cursor": 0, "identity": 1, "call": 2}
     reasons.sort(key=lambda r: order[r.split(":")[0]])
     expect = "reject" if reasons else ("either" if edge else "serve")
+    if reasons == ["call:omitted"] and world.w.cache > 0:
+        # docs/WIRE_PROTOCOL.md (Stream exchange): "a client that omits the token still works while that cache is
+        # warm; it fails as soon as the cache is not" - with a cache configured both outcomes are specified behaviour
+        # (a served answer must still be the cursor's own stream; a refusal must still be a clean 400).
+        expect = "either"
     return {"expect": expect, "reasons": reasons, "primary": reasons[0] if reasons else "valid", "target": target}
 
 
